@@ -31,4 +31,23 @@ theorem c16_gen_bucket_names (svcName : Bytes → Bytes) (servID bucket name : B
     Gen.C16.newContext_bucketName servID svcName = mainName (svcName servID) ∧
     Gen.C16.newContext_bucketVersionName servID svcName = versionName (svcName servID) ∧
     Gen.C16.GetAdditionalBucket_fullName bucket name = extraName bucket name := ⟨rfl, rfl, rfl⟩
+/-- **the decision of `LoadVersion` after the read, as translated** (`len(buf) == 0`, lifted out of a function that
+opens a database transaction): with a version cell that holds `b`, the model's `loadVersion` answers 0 exactly when
+the translated condition holds, and otherwise what `binary.Read` makes of the first four bytes (an error for fewer
+than four).  Falsified by `buf == nil` in place of `len(buf) == 0`, by a default other than 0. -/
+theorem c16_gen_loadVersion_decision (known : List Bytes) (db : Db) (svc b : Bytes)
+    (h : getFrom db (versionName svc) dbVersionKey = some (some b)) :
+    (step known db svc .loadVersion).2 =
+      if Gen.C16.LoadVersion_empty b then .ver 0
+      else match decodeVersion b with
+        | some v => .ver v
+        | none => .errVersion := by
+  unfold step
+  simp only [h]
+  cases b with
+  | nil => simp [Gen.C16.LoadVersion_empty, Gen.Rt.len]
+  | cons x r =>
+    have : ¬ ((↑(r.length) : Int) + 1 = 0) := by omega
+    simp [Gen.C16.LoadVersion_empty, Gen.Rt.len, this]
+    cases decodeVersion (x :: r) <;> rfl
 end C16
